@@ -48,6 +48,11 @@ def run(rep, drv):
 		mo = drv.call('fz', lo=lo, G=frs(G), cdf=frs(cdf), alpha=fr(p / (p + h)), Klam=fr(K * lam))
 		rep.tol_cmp += 1
 		bad = []
+		# hypothesis of fz_optimal_table (Props/C14Opt.lean), evaluated by the driver on the very table used
+		if 'unimodal' in mo:
+			rep.count('fz_optimal-hypothesis-unimodal-' + ('true' if mo['unimodal'] else 'FALSE'))
+			if not mo['unimodal']:
+				rep.diff('r_q_poisson_exact', 'the G table is not unimodal around S: fz_optimal_table does not cover this instance', case, oracle=False, theorem='Props/C14Opt.lean fz_optimal_table')
 		if isinstance(py, str):
 			bad.append(py)
 		else:
